@@ -486,7 +486,7 @@ fn gen_queries(t: &mut Tape, ncands_hint: usize, nlinks_hint: usize, n: usize) -
             let start = t.below(ncands_hint.max(1));
             let style = match t.weighted(&[6, 5, 2, 1, 2]) {
                 0 => StartStyle::Absolute,
-                1 => StartStyle::RelativeTo(t.below(ncands_hint.max(1)), t.chance(48)),
+                1 => StartStyle::RelativeTo(t.below(ncands_hint.max(1)), t.chance(170)),
                 2 => StartStyle::DotDot,
                 3 => StartStyle::TrailingDot,
                 _ => {
@@ -615,7 +615,8 @@ fn config_mentions_worktree(git_dir: &Path) -> bool {
     std::fs::read_to_string(git_dir.join("config")).map_or(false, |s| s.contains("worktree"))
 }
 
-type GixFound = Result<(PathBuf, Option<PathBuf>, &'static str), String>;
+/// (absolute git dir, absolute work tree, kind, git dir exactly as returned)
+type GixFound = Result<(PathBuf, Option<PathBuf>, &'static str, PathBuf), String>;
 
 /// Run gix-discover for `start_arg` as seen from `cwd`; paths in the result are made absolute.
 fn ask_gix(cwd: &Path, start_arg: &Path, ceilings: &[PathBuf]) -> Result<GixFound, String> {
@@ -646,7 +647,8 @@ fn ask_gix(cwd: &Path, start_arg: &Path, ceilings: &[PathBuf]) -> Result<GixFoun
             };
             let (gd, wt) = path.into_repository_and_work_tree_directories();
             let absolutize = |p: PathBuf| if p.is_absolute() { p } else { cwd.join(p) };
-            Ok((absolutize(gd), wt.map(absolutize), kind))
+            let raw = gd.clone();
+            Ok((absolutize(gd), wt.map(absolutize), kind, raw))
         }
         Err(e) => Err(e.to_string()),
     })
@@ -658,52 +660,104 @@ enum Cmp {
     Infra(String),
 }
 
-/// Compare the two answers. `form` is a suffix for signatures (used by the candidate-forms sub-check).
-fn compare(
-    ctx: &str,
-    answer: &GitOutcome,
-    gix_found: &GixFound,
+/// A `.git`-named directory that cannot be a git directory: judged from its parts only (HEAD in one of the two
+/// canonical forms, `objects` and `refs` directories), independent of either implementation's answer.
+fn is_plainly_invalid_dot_git(dir: &Path) -> bool {
+    let head_ok = std::fs::symlink_metadata(dir.join("HEAD")).map_or(false, |m| m.is_file())
+        && std::fs::read(dir.join("HEAD")).map_or(false, |h| {
+            h.starts_with(b"ref: refs/") || (h.len() == 41 && h[..40].iter().all(u8::is_ascii_hexdigit))
+        });
+    let common = if dir.join("commondir").is_file() { dir.join("../..") } else { dir.to_path_buf() };
+    !(head_ok && common.join("objects").is_dir() && common.join("refs").is_dir())
+}
+
+/// The known deviation class a disagreement falls into, decided (as far as possible) from the *inputs* of the query so
+/// that combinations of several classes are attributed deterministically; `None`: not a known class.
+fn known_class(
+    cwd: &Path,
+    start_arg: &Path,
     phys_start: &Path,
     canonical_ceilings: &[PathBuf],
-) -> Cmp {
+    answer: &GitOutcome,
+    gix_found: &GixFound,
+) -> Option<&'static str> {
+    // 1. a relative start made of plain names only (`sub`, `a/b`): once the cursor is down to one component the
+    //    current directory replaces it and is popped right away, so the current directory is never inspected
+    if start_arg.is_relative() && start_arg.components().all(|c| matches!(c, Component::Normal(_))) {
+        return Some("relative-start-of-plain-names-skips-cwd");
+    }
+    // 2. relative start (`.`, `./refs`) while the working directory is a `.git` directory: the walk arrives at `.`
+    if let Ok((_, _, _, raw)) = gix_found {
+        if raw == Path::new("./.git") && cwd.file_name() == Some(std::ffi::OsStr::new(".git")) && start_arg.is_relative() {
+            return Some("cwd-is-dot-git-dir-reported-as-work-tree");
+        }
+    }
+    // 3. a directory called `.git` on the upward path which is no git directory: the level above its parent is skipped
+    if phys_start
+        .ancestors()
+        .any(|a| a.file_name() == Some(std::ffi::OsStr::new(".git")) && is_plainly_invalid_dot_git(a))
+    {
+        return Some("invalid-dot-git-on-path-skips-parent-level");
+    }
+    // 4. broken gitfile: git dies, gitoxide continues
+    if let (GitOutcome::HardError(e), Ok(_)) = (answer, gix_found) {
+        if e.contains("invalid gitfile format") || e.contains("not a git repository: ") {
+            return Some("invalid-gitfile-is-skipped");
+        }
+    }
+    // 5. relative start, found directory not called `.git`: the result is shortened to `../…/.git` although the
+    //    directory that many levels up (minus one) is the (differently named) git directory
+    if let Ok((_, _, _, raw)) = gix_found {
+        let n = raw.components().count();
+        let only_dotdots_then_dot_git = raw.is_relative()
+            && raw.file_name() == Some(std::ffi::OsStr::new(".git"))
+            && n > 1
+            && raw.components().rev().skip(1).all(|c| c == Component::ParentDir);
+        if only_dotdots_then_dot_git {
+            let mut meant = cwd.to_path_buf();
+            for _ in 0..n.saturating_sub(2) {
+                meant.pop();
+            }
+            let meant_is_git_dir = meant.file_name() != Some(std::ffi::OsStr::new(".git"))
+                && meant.join("HEAD").symlink_metadata().is_ok();
+            let git_says_meant = matches!(answer, GitOutcome::Found(a) if canon(&a.git_dir) == canon(&meant));
+            if meant_is_git_dir && (git_says_meant || !matches!(answer, GitOutcome::Found(_))) {
+                return Some("relative-start-non-dot-git-directory-shortened-to-dot-git");
+            }
+        }
+    }
+    // 6. the ceiling directory itself is still inspected
+    if let (GitOutcome::NotFound, Ok((gd, ..))) = (answer, gix_found) {
+        let got = canon(gd);
+        if got.is_some()
+            && canonical_ceilings.iter().any(|ce| {
+                phys_start.starts_with(ce) && phys_start != ce && (candidate_at(ce) == got || Some(ce) == got.as_ref())
+            })
+        {
+            return Some("ceiling-directory-itself-is-searched");
+        }
+    }
+    None
+}
+
+/// Compare the two answers; the signature of a disagreement is generic here, see `known_class()`.
+fn compare(ctx: &str, answer: &GitOutcome, gix_found: &GixFound) -> Cmp {
     match (answer, gix_found) {
         (GitOutcome::NotFound, Err(_)) => Cmp::Agree("none"),
         (GitOutcome::HardError(_), Err(_)) => Cmp::Agree("git-hard-error-gix-none"),
-        (GitOutcome::NotFound, Ok((gd, wt, _))) => {
-            // known deviation class: gitoxide still inspects the ceiling directory itself
-            let got = canon(gd);
-            let at_ceiling = canonical_ceilings.iter().any(|ce| {
-                phys_start.starts_with(ce)
-                    && phys_start != ce
-                    && got.is_some()
-                    && (candidate_at(ce) == got || Some(ce) == got.as_ref())
-            });
-            let sig = if at_ceiling {
-                "ceiling-directory-itself-is-searched"
-            } else {
-                "gix-finds-repository-git-finds-none"
-            };
-            Cmp::Differ(
-                sig.into(),
-                format!("{ctx}: git finds no repository, gitoxide finds git dir {gd:?} work tree {wt:?}"),
-            )
-        }
-        (GitOutcome::HardError(e), Ok((gd, wt, _))) => {
-            let sig = if e.contains("invalid gitfile format") || e.contains("not a git repository: ") {
-                "invalid-gitfile-is-skipped"
-            } else {
-                "gix-continues-where-git-dies"
-            };
-            Cmp::Differ(
-                sig.into(),
-                format!("{ctx}: git fails with {e:?}, gitoxide finds git dir {gd:?} work tree {wt:?}"),
-            )
-        }
+        (GitOutcome::NotFound, Ok((gd, wt, _, _))) => Cmp::Differ(
+            "gix-finds-repository-git-finds-none".into(),
+            format!("{ctx}: git finds no repository, gitoxide finds git dir {gd:?} work tree {wt:?}"),
+        ),
+        (GitOutcome::HardError(e), Ok((gd, wt, _, _))) => Cmp::Differ(
+            "gix-continues-where-git-dies".into(),
+            format!("{ctx}: git fails with {e:?}, gitoxide finds git dir {gd:?} work tree {wt:?}"),
+        ),
         (GitOutcome::Found(a), Err(e)) => Cmp::Differ(
             "git-finds-repository-gix-finds-none".into(),
             format!("{ctx}: git finds {a:?}, gitoxide fails: {e}"),
         ),
-        (GitOutcome::Found(a), Ok((gd, wt, kind))) => {
+        (GitOutcome::Found(a), Ok((gd, wt, kind, _raw))) => {
             let want_gd = canon(&a.git_dir);
             let got_gd = canon(gd);
             if want_gd.is_none() {
@@ -779,6 +833,7 @@ pub fn main() {
         let may_omit_root_ceiling = root.starts_with("/dev/shm");
         let mut descr = Vec::new();
         let mut nontrivial = false;
+        let mut known_mismatch: Option<(&'static str, String)> = None;
 
         for q in &layout.queries {
             let phys_start = built.cands[q.start.min(built.cands.len() - 1)].clone();
@@ -877,11 +932,32 @@ pub fn main() {
                 start_arg, cwd, phys_start, git_ceils
             );
             descr.push(format!("{ctx} -> git {answer:?}"));
-            match compare(&ctx, &answer, &gix_found, &phys_start, &canonical_ceilings) {
+            match compare(&ctx, &answer, &gix_found) {
                 Cmp::Agree(l) => c.label(l),
                 Cmp::Differ(sig, msg) => {
-                    c.fail_sig(&sig, msg);
-                    break;
+                    // known deviation class: git works on the physical directory (it chdir()s into the start),
+                    // gitoxide walks the lexical parents of a start directory spelled through a symlink
+                    let through_symlink = matches!(q.style, StartStyle::ViaSymlink(_))
+                        && start_arg.is_absolute()
+                        && canon(&start_arg).map_or(false, |p| p != start_arg);
+                    let class = if through_symlink {
+                        Some("start-through-symlink-walks-lexical-parents")
+                    } else {
+                        known_class(&cwd, &start_arg, &phys_start, &canonical_ceilings, &answer, &gix_found)
+                    };
+                    match class {
+                        // keep going: the remaining queries of this layout are still worth their oracle calls
+                        Some(class) => {
+                            c.label("query-in-known-deviation-class");
+                            if known_mismatch.is_none() {
+                                known_mismatch = Some((class, msg));
+                            }
+                        }
+                        None => {
+                            c.fail_sig(&sig, msg);
+                            return;
+                        }
+                    }
                 }
                 Cmp::Infra(m) => {
                     c.infra(m);
@@ -891,20 +967,35 @@ pub fn main() {
         }
         c.nontrivial(nontrivial);
         c.sample_with(|| format!("{:?}\n  {}", layout.nodes, descr.join("\n  ")));
+        if let Some((class, msg)) = known_mismatch {
+            c.fail_sig(class, msg);
+        }
     });
 
     // Every form of a single candidate: what counts as a repository must agree.
-    ck.sub("candidate-forms", SubCfg::new(400, 4_000).max_len(16).max_shrink(30), |t, c| {
+    ck.sub("candidate-forms", SubCfg::new(600, 6_000).max_len(16).max_shrink(30), |t, c| {
         let head = ALL_HEADS[t.below(ALL_HEADS.len())];
         let missing = ALL_MISSING[t.weighted(&[6, 1, 1, 1, 1])];
-        let container = *t.pick(&["dot-git", "bare", "gitfile", "linked-private"]);
+        let container = *t.pick(&["dot-git", "bare", "gitfile", "linked-private", "no-candidate"]);
         let outer = t.bool();
         let cfg = match t.weighted(&[3, 1]) {
             0 => Some(container == "bare"),
             _ => None,
         };
         let from_inside = t.chance(64);
-        c.key(&(head, missing, container, outer, cfg, from_inside));
+        // additionally make the outer directory a ceiling (git then must not find the outer repository)
+        let ceiling_at_outer = t.chance(48);
+        // how the start is spelled: absolute / `name` relative to its parent / `.` from within / `..` from a
+        // sub-directory / through a directory symlink
+        let style = t.weighted(&[10, 2, 2, 2, 2]);
+        // unusual spellings and ceilings are combined with canonical candidates only, so that a disagreement has one cause
+        let (head, missing) = if style != 0 || ceiling_at_outer {
+            (if matches!(head, Head::Detached) { Head::Detached } else { Head::Symbolic }, Missing::Nothing)
+        } else {
+            (head, missing)
+        };
+        c.key(&(head, missing, container, outer, cfg, from_inside, ceiling_at_outer, style));
+        c.label_if(ceiling_at_outer, "ceiling-at-outer");
         c.label(container);
         c.nontrivial(!(matches!(head, Head::Symbolic | Head::Detached) && missing == Missing::Nothing));
         c.sample_with(|| format!("{container} head={head:?} missing={missing:?} outer={outer} cfg_bare={cfg:?} from_inside={from_inside}"));
@@ -920,7 +1011,7 @@ pub fn main() {
         if outer {
             infra!(c, write_gitdir(&o.join(".git"), &valid, None), "outer");
         }
-        let mut inside = None;
+        let inside;
         let r = match container {
             "dot-git" => {
                 inside = Some(x.join(".git"));
@@ -935,6 +1026,10 @@ pub fn main() {
                 inside = Some(gd.clone());
                 write_gitdir(&gd, &spec, None)
                     .and_then(|_| write(&x.join(".git"), format!("gitdir: {}\n", gd.display()).as_bytes()))
+            }
+            "no-candidate" => {
+                inside = None;
+                Ok(())
             }
             _ => {
                 // valid main repository elsewhere; the candidate is the private directory of a linked worktree
@@ -956,19 +1051,73 @@ pub fn main() {
         };
         let git = Git::new(&root, &home);
         let hermetic = root.parent().map(Path::to_path_buf).unwrap_or_else(|| PathBuf::from("/"));
-        let answer = infra!(c, ask_git(&git, &root, &start, &hermetic.display().to_string()), "git rev-parse");
-        let gix_found = infra!(c, ask_gix(&root, &start, std::slice::from_ref(&hermetic)), "gix-discover");
-        let ctx = format!("{container} candidate with HEAD {head:?}, {missing:?} missing, config bare={cfg:?}, outer repository: {outer}, start {start:?}");
-        match compare(&ctx, &answer, &gix_found, &start, &[hermetic.clone()]) {
+        let mut ceilings = vec![hermetic.clone()];
+        if ceiling_at_outer {
+            ceilings.insert(0, o.clone());
+        }
+        let ceil_env = ceilings.iter().map(|p| p.display().to_string()).collect::<Vec<_>>().join(":");
+        let (cwd, start_arg): (PathBuf, PathBuf) = match style {
+            1 => match (start.parent(), start.file_name()) {
+                (Some(p), Some(n)) => (p.to_path_buf(), PathBuf::from(n)),
+                _ => (root.clone(), start.clone()),
+            },
+            2 => (start.clone(), PathBuf::from(".")),
+            3 => match std::fs::read_dir(&start).ok().and_then(|rd| {
+                let mut subs: Vec<PathBuf> = rd
+                    .filter_map(|e| e.ok().filter(|e| e.file_type().map_or(false, |t| t.is_dir())).map(|e| e.path()))
+                    .collect();
+                subs.sort();
+                subs.into_iter().next()
+            }) {
+                Some(sub) => (sub, PathBuf::from("..")),
+                None => (root.clone(), start.clone()),
+            },
+            4 => {
+                let link = root.join("ln");
+                infra!(c, std::os::unix::fs::symlink(&start, &link), "symlink");
+                (root.clone(), link)
+            }
+            _ => (root.clone(), start.clone()),
+        };
+        c.label(match style {
+            1 => "start-plain-relative",
+            2 => "start-dot",
+            3 => "start-dotdot-relative",
+            4 => "start-via-symlink",
+            _ => "start-absolute",
+        });
+        let answer = infra!(c, ask_git(&git, &cwd, &start_arg, &ceil_env), "git rev-parse");
+        let gix_found = infra!(c, ask_gix(&cwd, &start_arg, &ceilings), "gix-discover");
+        let ctx = format!("{container} candidate with HEAD {head:?}, {missing:?} missing, config bare={cfg:?}, outer repository: {outer}, start {start_arg:?} from {cwd:?}, ceilings {ceilings:?}");
+        let cand_gd = inside.as_deref().and_then(canon);
+        let git_accepts = matches!(&answer, GitOutcome::Found(a) if canon(&a.git_dir) == cand_gd);
+        let gix_accepts = matches!(&gix_found, Ok((gd, _, _, _)) if canon(gd) == cand_gd);
+        c.label(match (git_accepts, gix_accepts) {
+            (true, true) => "candidate-accepted",
+            (false, false) => "candidate-rejected",
+            _ => "candidate-disputed",
+        });
+        match compare(&ctx, &answer, &gix_found) {
             Cmp::Agree(l) => c.label(l),
             Cmp::Differ(sig, msg) => {
-                // attribute the disagreement to the form of the candidate
-                let sig = match sig.as_str() {
-                    "invalid-gitfile-is-skipped" => sig,
-                    _ if !matches!(head, Head::Symbolic | Head::Detached) => format!("head-form-{head:?}:{sig}"),
-                    _ if missing != Missing::Nothing => format!("parts-{missing:?}:{sig}"),
-                    _ => sig,
+                // attribute a disagreement about the candidate itself to its form
+                let who = if git_accepts { "git" } else { "gitoxide" };
+                let sig = if style == 4 {
+                    "start-through-symlink-walks-lexical-parents".to_string()
+                } else if git_accepts != gix_accepts && !matches!(head, Head::Symbolic | Head::Detached) {
+                    format!("head-form-{head:?}-accepted-by-{who}-only")
+                } else if git_accepts != gix_accepts && missing != Missing::Nothing {
+                    format!("parts-{missing:?}-accepted-by-{who}-only")
+                } else {
+                    known_class(&cwd, &start_arg, &start, &ceilings, &answer, &gix_found)
+                        .map(str::to_string)
+                        .unwrap_or(sig)
                 };
+                if std::env::var_os("C50_SURVEY").is_some() {
+                    // diagnostic mode for authors: list every disagreeing form instead of stopping at the first
+                    eprintln!("SURVEY {sig}: {container} outer={outer} cfg={cfg:?} inside={from_inside}");
+                    return;
+                }
                 c.fail_sig(&sig, msg)
             }
             Cmp::Infra(m) => c.infra(m),
